@@ -174,7 +174,7 @@ pub(crate) fn line_is_structural(text: &[u8], from: usize) -> bool {
             b'\n' | b'\r' => return false,
             // Everything past a comment is comment text, so no indicator follows.
             b'#' if after_separation(text, content_start, i) => return false,
-            b'"' | b'\'' if after_separation(text, content_start, i) => {
+            b'"' | b'\'' if opens_quoted_node(text, content_start, i) => {
                 match quoted_span_end(text, i) {
                     QuotedSpanEnd::ClosedSameLine(end) => i = end,
                     // Crosses the line break (or never closes): a multi-line
@@ -204,6 +204,24 @@ pub(crate) fn line_is_structural(text: &[u8], from: usize) -> bool {
 #[inline]
 pub(crate) fn after_separation(text: &[u8], content_start: usize, i: usize) -> bool {
     i == content_start || matches!(text.get(i - 1), Some(b' ' | b'\t'))
+}
+
+/// Does the `"` or `'` byte at `i` open a quoted scalar — at `content_start`, or
+/// after separation when only node properties (`&anchor`, `!tag`) precede it on
+/// the line? After plain-scalar text a quote is content even when a space comes
+/// before it (`a "b: 1` is the plain key `a "b`), and the `:` after it is a real
+/// value indicator.
+///
+/// Shared by [`line_is_structural`] and [`validate::Validator::line_kind`], like
+/// [`after_separation`].
+#[inline]
+pub(crate) fn opens_quoted_node(text: &[u8], content_start: usize, i: usize) -> bool {
+    if !after_separation(text, content_start, i) {
+        return false;
+    }
+    text[content_start..i]
+        .split(|b| matches!(b, b' ' | b'\t'))
+        .all(|tok| tok.is_empty() || matches!(tok[0], b'&' | b'!'))
 }
 
 /// Where the quoted scalar opening at `pos` (on its `"`/`'` byte) truly closes,
